@@ -44,6 +44,9 @@ def goal(w):
 
 
 def factory(sc):
+    if "ops" in sc:
+        kw = {"max_steps": 900, "horizon": 60.0, "deviations": tuple(sc.get("dev", ("drop",)))}
+        return netsim.resolve_tickets(dict(sc["cfg"])), sc["ops"], [SizeMonitor()], kw, goal
     cfg = dict(sc["cfg"])
     if sc.get("resume"):
         base = {k: v for k, v in cfg.items() if k in ("version", "chain", "c_mds", "s_mds")}
@@ -110,6 +113,9 @@ def scenarios(tier, seed):
 def run(ctx):
     sc = scenarios(ctx.tier, ctx.seed)
     agg = netcheck.explore_scenarios(ctx, "c13", sc, 1, "d1", sig_extra=sig_extra)
+    from vlib import cfgpairs
+
+    netcheck.explore_scenarios(ctx, "c13", cfgpairs.scenarios(ctx.seed), 1, "config_pairs_d1", sig_extra=sig_extra)
     if ctx.tier == "thorough":
         core_sc = {k: v for k, v in sc.items() if not k.startswith("hs|c") or "bigchain" not in k}
         netcheck.explore_scenarios(ctx, "c13", core_sc, 2, "d2", sig_extra=sig_extra)
